@@ -26,6 +26,7 @@ LEAVES = ["normal", "raise@0", "raise@1", "raise@2", "base@1", "return@1", "clos
 
 BOUNDS = {
     "quick": {
+        "filepool_iterables": "paths given as iterator / generator / tuple", 
         "tmp_history": "all sequences of length <= 5 over {create, remove(oldest), remove(2nd), remove of an "
                        "externally deleted file, flush}, each once leaving the context normally and once with an "
                        "exception raised after the last operation (= at every point of the body): 2 x 3906",
@@ -36,6 +37,7 @@ BOUNDS = {
                     "after I/O, BaseException, return, explicit close first)",
     },
     "thorough": {
+        "filepool_iterables": "paths given as iterator / generator / tuple", 
         "tmp_history": "length <= 6 (2 x 19531) + 2000 random histories of length 7..10",
         "tmp_multiproc": "48 scenarios (all combinations of 1..3 children x 1..2 files x leave x 4 variants)",
         "filepool": "as quick + 0..5 files",
@@ -63,6 +65,10 @@ def cases(tier, seed):
         for mode in MODES:
             for leave in LEAVES:
                 yield {"kind": "filepool", "n": n, "mode": mode, "leave": leave}
+    # the paths may be given as any iterable (one-shot iterators included): everything opened must be closed again
+    for src in ("iterator", "generator", "tuple"):
+        for leave in LEAVES[:2]:
+            yield {"kind": "filepool", "n": 2, "mode": MODES[0], "leave": leave, "paths_as": src}
     # multi-process pools
     for variant in ("plain", "parent_removes_child_file", "flush_before_children", "child_creates_after_flush"):
         if quick:
@@ -241,7 +247,10 @@ def _run_filepool(case):
                     f.write("content of f%d.txt\n" % i)
             paths.append(p)
         handles = []
-        fp = FilePool(list(paths), mode)
+        src = case.get("paths_as", "list")
+        given = list(paths) if src == "list" else (iter(list(paths)) if src == "iterator" else (x for x in list(paths)) if src == "generator"
+                                                   else tuple(paths))
+        fp = FilePool(given, mode)
         try:
             bad = _fp_body(fp, paths, mode, leave, handles)
         except (_Boom, _BaseBoom):
